@@ -5,13 +5,14 @@ import (
 	"go/ast"
 	"go/token"
 	"go/types"
+	"golang.org/x/tools/go/cfg"
 	"sort"
 	"strings"
 )
 
 func init() {
 	register("C28", propMeta{
-		Explanation: "(R1) sibling check over every implementation of sop.Locker.Unlock in scope: a lock entry may be deleted only under a comparison of the STORED owner with the caller's LockID that is atomic with the deletion (compare-and-delete); deleting by key on the strength of a local flag is a violation; (R2) the lock table never drops a live lock: every deletion from the sharded map that backs `locks` other than of the operation's own key (i.e. a capacity eviction) must be excluded for unexpired lock entries; (R3) acquisition is atomic: the in-memory Lock takes ownership only through loadOrStore / compareAndSwap on an expired entry / re-entry on equal LockID, never through a plain store, and the Redis Lock acquires with SETNX carrying the TTL and grants ownership only on SETNX success or stored value == LockID; IsLocked requires stored owner == LockID and an unexpired entry.",
+		Explanation:  "(R1) sibling check over every implementation of sop.Locker.Unlock in scope: a lock entry may be deleted only under a comparison of the STORED owner with the caller's LockID that is atomic with the deletion (compare-and-delete); deleting by key on the strength of a local flag is a violation; (R2) the lock table never drops a live lock: every deletion from the sharded map that backs `locks` other than of the operation's own key (i.e. a capacity eviction) must be excluded for unexpired lock entries; (R3) acquisition is atomic: the in-memory Lock takes ownership only through loadOrStore / compareAndSwap on an expired entry / re-entry on equal LockID, never through a plain store, and the Redis Lock acquires with SETNX carrying the TTL and grants ownership only on SETNX success or stored value == LockID; IsLocked requires stored owner == LockID and an unexpired entry.",
 		DoesNotCover: "Interleavings are not explored; Redis server semantics (SETNX atomicity, TTL) are assumed.",
 	}, runC28)
 }
@@ -128,26 +129,133 @@ func runC28(c *Ctx) {
 			sig := f.Obj.Type().(*types.Signature)
 			keyP := types.Object(sig.Params().At(0))
 			n := 0
+			// a liveness guard is a branch condition that compares an expiration with the clock,
+			// directly or through a helper declared in package cache whose body does
+			clockCmp := func(fn *Func, e ast.Node) bool {
+				return w.mentionsCall(fn, e, "time.Now") && w.mentionsCall(fn, e, "time.Time.After", "time.Time.Before")
+			}
+			guard := g.condNodes(func(e ast.Expr) bool {
+				if clockCmp(f, e) {
+					return true
+				}
+				hit := false
+				ast.Inspect(e, func(x ast.Node) bool {
+					if call, ok := x.(*ast.CallExpr); ok {
+						if cf := w.CalleeFunc(w.resolveCall(f, call)); cf != nil && cf.Pkg == f.Pkg && clockCmp(cf, cf.Body) {
+							hit = true
+						}
+					}
+					return true
+				})
+				return hit
+			})
+			// guardedInLoop: node s lies in a range loop and every path from the loop head to s passes a
+			// liveness guard one of whose edges cannot reach s within the same iteration (the guard decides)
+			guardedInLoop := func(sn *GNode) bool {
+				h := enclosingRangeHead(g, sn)
+				if h == nil || len(guard) == 0 {
+					return false
+				}
+				// entering a type-switch case for types other than lockItem proves the entry is no lock
+				nonLockCase := func(x *GNode) bool {
+					if x.Block == nil || x.Block.Kind != cfg.KindSwitchCaseBody {
+						return false
+					}
+					cl, ok := x.Block.Stmt.(*ast.CaseClause)
+					if !ok || len(cl.List) == 0 {
+						return false
+					}
+					for _, te := range cl.List {
+						tv, ok := info.Types[te]
+						if !ok || !tv.IsType() || typeBaseName(tv.Type) == "lockItem" {
+							return false
+						}
+					}
+					return true
+				}
+				// `li, isLock := v.(lockItem)`: the false edge of a test of isLock proves the same
+				notLockEdge := func(from *GNode, e Edge) bool {
+					id, ok := from.Ast.(*ast.Ident)
+					if !ok || !from.IsCond || e.Cond != 2 {
+						return false
+					}
+					okVar, _ := info.Uses[id].(*types.Var)
+					if okVar == nil {
+						return false
+					}
+					found := false
+					ast.Inspect(f.Body, func(x ast.Node) bool {
+						as, isAs := x.(*ast.AssignStmt)
+						if !isAs || len(as.Lhs) != 2 || len(as.Rhs) != 1 {
+							return true
+						}
+						ta, isTA := ast.Unparen(as.Rhs[0]).(*ast.TypeAssertExpr)
+						l1, isID := as.Lhs[1].(*ast.Ident)
+						if isTA && isID && ta.Type != nil && info.Defs[l1] == types.Object(okVar) {
+							if tv, ok := info.Types[ta.Type]; ok && typeBaseName(tv.Type) == "lockItem" {
+								found = true
+							}
+						}
+						return true
+					})
+					return found
+				}
+				if g.Reach(bodyStarts(h), or(nodeSet(guard), nonLockCase), notLockEdge).Seen[sn.ID] {
+					return false
+				}
+				stopAtHead := func(x *GNode) bool { return x == h }
+				for _, gd := range guard {
+					if !g.Reach([]int{gd.ID}, stopAtHead, nil).Seen[sn.ID] {
+						continue // this guard is not on a path to s within the iteration
+					}
+					decisive := false
+					for _, e := range gd.Succs {
+						if !g.Reach([]int{e.To}, stopAtHead, nil).Seen[sn.ID] {
+							decisive = true
+						}
+					}
+					if !decisive {
+						return false
+					}
+				}
+				return true
+			}
 			for _, nd := range g.Nodes {
 				for _, cs := range nd.Calls {
 					if cs.Key != "builtin.delete" || len(cs.Call.Args) != 2 {
 						continue
 					}
-					if id, ok := ast.Unparen(cs.Call.Args[1]).(*ast.Ident); ok && info.Uses[id] == keyP {
+					id, isID := ast.Unparen(cs.Call.Args[1]).(*ast.Ident)
+					if isID && info.Uses[id] == keyP {
 						continue // deleting the operation's own key
 					}
 					n++
 					c.Analysed(f)
-					// an eviction: must be guarded so that an unexpired lockItem is never the victim:
-					// a dominating condition mentioning the victim's expiration and time.Now / After / Before
 					victim := types.ExprString(cs.Call.Args[1])
-					guard := g.condNodes(func(e ast.Expr) bool {
-						s := types.ExprString(e)
-						return (strings.Contains(s, "After(") || strings.Contains(s, "Before(")) && strings.Contains(s, "Now()")
-					})
-					r := g.Reach([]int{g.Entry}, nodeSet(guard), nil)
-					ok := len(guard) > 0 && !r.Seen[nd.ID]
-					c.Check(ok, r2, fmt.Sprintf("%s: eviction #%d spares live lock entries", shortKey(k), n), cs.Call.Pos(), "victim's expiry is checked against the clock first",
+					ok := false
+					if isID {
+						if v, _ := info.Uses[id].(*types.Var); v != nil {
+							// either the victim is the key of the range loop the delete sits in (guard inside
+							// that loop), or a local that is assigned from such a key only under the guard
+							var srcs []*GNode
+							for _, x := range g.Nodes {
+								if x != nd && g.assigns(x, v) && enclosingRangeHead(g, x) != nil {
+									srcs = append(srcs, x)
+								}
+							}
+							if len(srcs) == 0 {
+								ok = guardedInLoop(nd)
+							} else {
+								ok = true
+								for _, sn := range srcs {
+									if !guardedInLoop(sn) {
+										ok = false
+									}
+								}
+							}
+						}
+					}
+					c.Check(ok, r2, fmt.Sprintf("%s: eviction #%d spares live lock entries", shortKey(k), n), cs.Call.Pos(), "the victim is chosen only among entries whose expiry was checked against the clock",
 						"when a shard is at capacity the map evicts a sampled entry ("+victim+") without checking that it has expired; the lock table shares this map, so a held, unexpired lock can be evicted and the same key acquired by another owner", nil)
 				}
 			}
@@ -198,7 +306,9 @@ func runC28(c *Ctx) {
 		gi := w.G(fi)
 		c.Analysed(fi)
 		ii := fi.Pkg.TypesInfo
-		trueRet := func(n *GNode) bool { return n.Ret != nil && len(n.Ret.Results) == 2 && isBoolLit(ii, n.Ret.Results[0], true) }
+		trueRet := func(n *GNode) bool {
+			return n.Ret != nil && len(n.Ret.Results) == 2 && isBoolLit(ii, n.Ret.Results[0], true)
+		}
 		neq := gi.condNodes(func(e ast.Expr) bool {
 			be, ok := e.(*ast.BinaryExpr)
 			return ok && be.Op == token.NEQ && mentionsObj(ii, be, lockIDKey)
